@@ -1,0 +1,397 @@
+//go:build verif
+
+package ggql
+
+//@ -- second sweep: functions dropped at generation time; shape preconditions derived from the signatures
+
+//@ func (*Root).addTypes
+//@   props C03
+//@   check panic {C03}
+//@   requires recv != nil
+
+//@ func (*Root).ParseString
+//@   props C03
+//@   check panic {C03}
+//@   requires[created-by-NewRoot] recv.types != nil && recv.dirs != nil
+//@   requires[finite-input] #rd <= #N
+//@   requires recv != nil
+
+//@ func (*Root).Parse
+//@   props C03
+//@   check panic {C03}
+//@   requires[created-by-NewRoot] recv.types != nil && recv.dirs != nil
+//@   requires[finite-input] #rd <= #N
+//@   requires recv != nil
+
+//@ func (*Root).ParseFS
+//@   props C03
+//@   check panic {C03}
+//@   requires[created-by-NewRoot] recv.types != nil && recv.dirs != nil
+//@   requires fsys != nil
+//@   requires[finite-input] #rd <= #N
+//@   requires recv != nil
+//@   requires fsys != nil
+
+//@ func (*Root).SDL
+//@   props C03
+//@   check panic {C03}
+//@   requires recv != nil
+
+//@ func (*Root).validateDirUses
+//@   props C03
+//@   check panic {C03}
+//@   requires recv != nil
+//@   requires t != nil && ptrval(t) != 0
+
+//@ func (*Root).validateDirUse
+//@   props C03
+//@   check panic {C03}
+//@   requires recv != nil
+//@   requires du != nil
+
+//@ func (*Root).ReplaceRefs
+//@   props C03
+//@   check panic {C03}
+//@   requires recv != nil
+
+//@ func (*Root).replaceTypeRefs
+//@   props C03
+//@   check panic {C03}
+//@   requires recv != nil
+//@   requires t != nil && ptrval(t) != 0
+
+//@ func (*Root).replaceListRefs
+//@   props C03
+//@   check panic {C03}
+//@   requires recv != nil
+//@   requires list != nil
+
+//@ func (*Root).replaceNonNullRefs
+//@   props C03
+//@   check panic {C03}
+//@   requires recv != nil
+//@   requires nn != nil
+
+//@ func (*Root).replaceFieldRefs
+//@   props C03
+//@   check panic {C03}
+//@   requires recv != nil
+//@   requires fields != nil
+
+//@ func (*Root).replaceInputFieldRefs
+//@   props C03
+//@   check panic {C03}
+//@   requires recv != nil
+//@   requires args != nil
+
+//@ func (*Root).replaceArgRefs
+//@   props C03
+//@   check panic {C03}
+//@   requires recv != nil
+//@   requires args != nil
+
+//@ func (*Root).replaceDirRefs
+//@   props C03
+//@   check panic {C03}
+//@   requires recv != nil
+
+//@ func (*Object).write
+//@   props C03
+//@   check panic {C03}
+//@   requires recv != nil
+//@   requires w != nil
+
+//@ func (*Object).Extend
+//@   props C03
+//@   check panic {C03}
+//@   requires recv != nil
+//@   requires x != nil && ptrval(x) != 0
+
+//@ func (*Object).AddField
+//@   props C03
+//@   check panic {C03}
+//@   requires recv != nil
+//@   requires fd != nil
+
+//@ func (*Scalar).Write
+//@   props C03
+//@   check panic {C03}
+//@   requires recv != nil
+//@   requires w != nil
+
+//@ func (*Fragment).Validate
+//@   props C03
+//@   check panic {C03}
+//@   requires recv != nil
+//@   requires root != nil
+
+//@ func (*FieldDef).Write
+//@   props C03
+//@   check panic {C03}
+//@   requires recv != nil
+//@   requires w != nil
+
+//@ func (*FieldDef).AddArg
+//@   props C03
+//@   check panic {C03}
+//@   requires recv != nil
+//@   requires a != nil
+
+//@ func (*Field).Validate
+//@   props C03
+//@   check panic {C03}
+//@   requires recv != nil
+//@   requires root != nil
+
+//@ func (*Field).write
+//@   props C03
+//@   check panic {C03}
+//@   requires recv != nil
+//@   requires buf != nil
+//@   requires depth >= 0
+
+//@ func (*Base).Extend
+//@   props C03
+//@   check panic {C03}
+//@   requires recv != nil
+//@   requires x != nil && ptrval(x) != 0
+
+//@ func (*Base).writeHeader
+//@   props C03
+//@   check panic {C03}
+//@   requires recv != nil
+//@   requires w != nil
+
+//@ func writeDesc
+//@   props C03
+//@   check panic {C03}
+//@   requires w != nil
+//@   requires indent >= 0
+
+//@ func writeDirectiveUses
+//@   props C03
+//@   check panic {C03}
+//@   requires w != nil
+
+//@ func (*Interface).Write
+//@   props C03
+//@   check panic {C03}
+//@   requires recv != nil
+//@   requires w != nil
+
+//@ func (*Interface).Extend
+//@   props C03
+//@   check panic {C03}
+//@   requires recv != nil
+//@   requires x != nil && ptrval(x) != 0
+
+//@ func (*Interface).AddField
+//@   props C03
+//@   check panic {C03}
+//@   requires recv != nil
+//@   requires fd != nil
+
+//@ func (*InputField).Write
+//@   props C03
+//@   check panic {C03}
+//@   requires recv != nil
+//@   requires w != nil
+
+//@ func (*Root).ResolveBytes
+//@   props C03
+//@   check panic {C03}
+//@   requires[schema-object] recv.obj != nil
+//@   requires recv.schema != nil
+//@   requires[finite-input] #rd <= #N
+//@   requires[unlocked] forall m int {held[m]} :: !held[m]
+//@   requires recv != nil
+
+//@ func (*Root).ResolveString
+//@   props C03
+//@   check panic {C03}
+//@   requires[schema-object] recv.obj != nil
+//@   requires recv.schema != nil
+//@   requires[finite-input] #rd <= #N
+//@   requires[unlocked] forall m int {held[m]} :: !held[m]
+//@   requires recv != nil
+
+//@ func (*Root).getFieldType
+//@   props C03
+//@   check panic {C03}
+//@   requires recv != nil
+//@   requires t != nil && ptrval(t) != 0
+
+//@ func (*ArgValue).Write
+//@   props C03
+//@   check panic {C03}
+//@   requires recv != nil
+//@   requires w != nil
+
+//@ func (*Input).AddField
+//@   props C03
+//@   check panic {C03}
+//@   requires recv != nil
+//@   requires f != nil
+
+//@ func (*Input).Write
+//@   props C03
+//@   check panic {C03}
+//@   requires recv != nil
+//@   requires w != nil
+
+//@ func (*Input).Extend
+//@   props C03
+//@   check panic {C03}
+//@   requires recv != nil
+//@   requires x != nil && ptrval(x) != 0
+
+//@ func (*Input).reflectSet
+//@   props C03
+//@   check panic {C03}
+//@   requires recv != nil
+
+//@ func (*Union).Write
+//@   props C03
+//@   check panic {C03}
+//@   requires recv != nil
+//@   requires w != nil
+
+//@ func (*Union).Extend
+//@   props C03
+//@   check panic {C03}
+//@   requires recv != nil
+//@   requires x != nil && ptrval(x) != 0
+
+//@ func (*Error).Error
+//@   props C03
+//@   check panic {C03}
+//@   requires recv != nil
+
+//@ func (*Subscription).prep
+//@   props C03
+//@   check panic {C03}
+//@   requires recv != nil
+//@   requires root != nil
+
+//@ func (*VarDef).Validate
+//@   props C03
+//@   check panic {C03}
+//@   requires recv != nil
+//@   requires root != nil
+
+//@ func (*Directive).Write
+//@   props C03
+//@   check panic {C03}
+//@   requires recv != nil
+//@   requires w != nil
+
+//@ func (*Directive).AddArg
+//@   props C03
+//@   check panic {C03}
+//@   requires recv != nil
+//@   requires a != nil
+
+//@ func (*Directive).Validate
+//@   props C03
+//@   check panic {C03}
+//@   requires recv != nil
+//@   requires root != nil
+
+//@ func (*Enum).AddValue
+//@   props C03
+//@   check panic {C03}
+//@   requires recv != nil
+//@   requires ev != nil
+
+//@ func (*Enum).Write
+//@   props C03
+//@   check panic {C03}
+//@   requires recv != nil
+//@   requires w != nil
+
+//@ func (*Enum).Extend
+//@   props C03
+//@   check panic {C03}
+//@   requires recv != nil
+//@   requires x != nil && ptrval(x) != 0
+
+//@ func (*Enum).Validate
+//@   props C03
+//@   check panic {C03}
+//@   requires recv != nil
+//@   requires root != nil
+
+//@ func (*Arg).Write
+//@   props C03
+//@   check panic {C03}
+//@   requires recv != nil
+//@   requires w != nil
+
+//@ func writeArgs
+//@   props C03
+//@   check panic {C03}
+//@   requires w != nil
+//@   requires args != nil
+
+//@ func (*Executable).Validate
+//@   props C03
+//@   check panic {C03}
+//@   requires recv != nil
+//@   requires root != nil
+
+//@ func (*Executable).SetContextRecursive
+//@   props C03
+//@   check panic {C03}
+//@   requires recv != nil
+
+//@ func (*Inline).Validate
+//@   props C03
+//@   check panic {C03}
+//@   requires recv != nil
+//@   requires root != nil
+
+//@ func (*Inline).write
+//@   props C03
+//@   check panic {C03}
+//@   requires recv != nil
+//@   requires buf != nil
+//@   requires depth >= 0
+
+//@ func (*EnumValue).Write
+//@   props C03
+//@   check panic {C03}
+//@   requires recv != nil
+//@   requires w != nil
+
+//@ func (*Schema).Extend
+//@   props C03
+//@   check panic {C03}
+//@   requires recv != nil
+//@   requires x != nil && ptrval(x) != 0
+
+//@ func (*Schema).Validate
+//@   props C03
+//@   check panic {C03}
+//@   requires fieldDefsOk(recv.fields.list)
+//@   requires recv != nil
+//@   requires root != nil
+
+//@ func (*FragRef).Validate
+//@   props C03
+//@   check panic {C03}
+//@   requires recv != nil
+//@   requires root != nil
+
+//@ func (*FragRef).write
+//@   props C03
+//@   check panic {C03}
+//@   requires recv != nil
+//@   requires buf != nil
+//@   requires depth >= 0
+
+//@ func (*Op).Validate
+//@   props C03
+//@   check panic {C03}
+//@   requires recv != nil
+//@   requires root != nil
+
